@@ -67,7 +67,12 @@ class Report:
 
 
 def main(argv=None):
-    args = parse_args(argv if argv is not None else sys.argv[1:])
+    raw = argv if argv is not None else sys.argv[1:]
+    if raw and raw[0] == "selftest":
+        from sim import selftest
+
+        return selftest.check(None)
+    args = parse_args(raw)
     prop = args.prop
     t0 = time.time()
     try:
